@@ -28,6 +28,9 @@ use vls_persist::kvv::memory::MemoryKVVStore;
 use vls_persist::kvv::redb::RedbKVVStore;
 use vls_persist::kvv::{KVVStore, KVV};
 
+#[path = "c16_persist.rs"]
+mod persist;
+
 type Rec = (u64, Vec<u8>);
 type Dump = Vec<(u64, Rec)>; // key id, record — in the order the store returned them
 
@@ -265,6 +268,32 @@ impl Ghost {
                 push("c16-batch-not-atomic", format!("refused batch ({}) changed the store: {} -> {}", out,
                     show_dump(&self.prev.clone().into_iter().collect()), show_dump(dump)));
             }
+        }
+        // single-write acceptance rules, judged against the committed store before the request
+        match op {
+            Op::Put(k, _) | Op::Del(k) => {
+                // put/delete choose their own version (committed + 1): they are never refused
+                if out == "mismatch" {
+                    push("c16-put-refused", format!("`put`/`delete` of key {} was refused with VersionMismatch (committed: {:?})",
+                        key_name(*k), self.prev.get(k).map(show_rec)));
+                }
+            }
+            Op::PutV(k, v, x) => {
+                if let Some((v0, x0)) = self.prev.get(k) {
+                    if v == v0 && x == x0 && out != "ok" {
+                        push("c16-idempotent-rewrite-refused", format!("put_with_version repeating the committed record {}:{} of key {} returned {}",
+                            v0, hexs(x0), key_name(*k), out));
+                    }
+                    if v == v0 && x != x0 && out == "ok" {
+                        push("c16-same-version-other-content-accepted", format!("put_with_version of key {} at the committed version {} with other content ({} instead of {}) returned ok",
+                            key_name(*k), v0, hexs(x), hexs(x0)));
+                    }
+                    if v < v0 && out == "ok" {
+                        push("c16-lower-version-accepted", format!("put_with_version of key {} at version {} below the committed {} returned ok", key_name(*k), v, v0));
+                    }
+                }
+            }
+            _ => {}
         }
         // read = last accepted write
         if out == "ok" {
@@ -672,6 +701,7 @@ fn run_cloud(ops: &[String]) -> (CaseOut, String) {
     let mut pending: BTreeMap<u64, Rec> = BTreeMap::new();
     // mutations reported by the last prepare with no accepted write since
     let mut reported: Option<Dump> = None;
+    let mut prepared_in_txn = false;
     let (mut accepted, mut refused) = (false, false);
     for (i, line) in ops.iter().enumerate() {
         let op = parse_op(line);
@@ -722,6 +752,7 @@ fn run_cloud(ops: &[String]) -> (CaseOut, String) {
             push("c16-cloud-local-changed-outside-commit", format!("`{}` changed the local store to {}", line, show_dump(&dump)));
         }
         // bookkeeping of accepted writes
+        let pending_before = pending.clone();
         let is_write = matches!(op, Op::Put(..) | Op::PutV(..) | Op::Batch(..) | Op::Del(..));
         if is_write {
             // entries of a batch are accepted one by one until the first refusal
@@ -762,6 +793,43 @@ fn run_cloud(ops: &[String]) -> (CaseOut, String) {
             }
             if out == "ok" { accepted = true } else { refused = true }
         }
+        // single-write acceptance rules inside a transaction, judged against the committed (local) store and the
+        // transaction's own pending entries
+        if txn == Txn::Open {
+            match &op {
+                Op::Put(k, _) | Op::Del(k) => {
+                    // put/delete take committed + 1; refused only if the transaction itself wrote a higher version
+                    let next = prev.get(k).map(|r| r.0.wrapping_add(1)).unwrap_or(0);
+                    let pend_above = pending_before.get(k).map(|r| r.0 > next).unwrap_or(false);
+                    if out == "mismatch" && !pend_above {
+                        push("c16-put-refused", format!("`put`/`delete` of key {} (version {}) was refused with VersionMismatch; pending {:?}",
+                            key_name(*k), next, pending_before.get(k).map(show_rec)));
+                    }
+                }
+                Op::PutV(k, v, x) => {
+                    if let Some((v0, x0)) = prev.get(k) {
+                        let pend_above = pending_before.get(k).map(|r| r.0 > *v).unwrap_or(false);
+                        if v == v0 && x == x0 && out != "ok" && !pend_above {
+                            push("c16-idempotent-rewrite-refused", format!("put_with_version repeating the committed record {}:{} of key {} returned {}",
+                                v0, hexs(x0), key_name(*k), out));
+                        }
+                        if v == v0 && x != x0 && out == "ok" {
+                            push("c16-same-version-other-content-accepted", format!("put_with_version of key {} at the committed version {} with other content returned ok", key_name(*k), v0));
+                        }
+                        if v < v0 && out == "ok" {
+                            push("c16-lower-version-accepted", format!("put_with_version of key {} at version {} below the committed {} returned ok", key_name(*k), v, v0));
+                        }
+                    }
+                }
+                Op::GetVer(k) => {
+                    let want = match pending.get(k).or(cur.get(k)) { Some(r) => format!("ver {}", r.0), None => "ver none".into() };
+                    if *k != 0 && out != want {
+                        push("c16-cloud-ryw", format!("get_version {} returned `{}` but the transaction's own last write / the store gives `{}`", key_name(*k), out, want));
+                    }
+                }
+                _ => {}
+            }
+        }
         // read-your-writes by key
         if let (Op::Get(k), Txn::Open) = (&op, txn) {
             let want = match pending.get(k).or(cur.get(k)) { Some(r) => format!("got {}", show_rec(r)), None => "got none".into() };
@@ -770,13 +838,33 @@ fn run_cloud(ops: &[String]) -> (CaseOut, String) {
             }
         }
         match &op {
-            Op::Enter => if out == "ok" { pending.clear(); reported = None; },
+            Op::Enter => if out == "ok" { pending.clear(); reported = None; prepared_in_txn = false; },
             Op::Prepare => if let Some(l) = out.strip_prefix("list ") {
                 // remember what was reported (parse back from the canonical text is not needed: recompute)
                 let _ = l;
                 if let Ok(_) = &r {
                     // re-read through get for each key is intrusive; use the textual list
-                    reported = Some(parse_dump(l));
+                    let rep = parse_dump(l);
+                    // every reported mutation must advance its key beyond the committed store (the cloud refuses
+                    // anything else as a conflict), and a non-empty report starts with the last-writer record:
+                    // committed writer version + 1 (0 the first time), value = this store's signer id
+                    for (k, rr) in &rep {
+                        if let Some((v0, _)) = prev.get(k) {
+                            if rr.0 <= *v0 {
+                                push("c16-cloud-reported-not-advancing", format!("prepare reported key {} at version {} but the committed store already has version {}", key_name(*k), rr.0, v0));
+                            }
+                        }
+                    }
+                    // (only for the first prepare of a transaction: a write after an "empty" prepare — which dropped the
+                    // record — is outside the enter -> writes -> prepare -> commit protocol, see notes)
+                    if !rep.is_empty() && !prepared_in_txn {
+                        let want_w: Rec = (prev.get(&0).map(|w| w.0.wrapping_add(1)).unwrap_or(0), SID.to_vec());
+                        if rep.iter().find(|(k, _)| *k == 0).map(|(_, w)| w) != Some(&want_w) {
+                            push("c16-cloud-last-writer-record", format!("prepare reported {} ; the last-writer record must be {}", show_dump(&rep), show_rec(&want_w)));
+                        }
+                    }
+                    reported = Some(rep);
+                    prepared_in_txn = true;
                 }
             },
             Op::Commit => {
@@ -936,5 +1024,6 @@ pub fn groups() -> Vec<Box<dyn Group>> {
     vec![
         Box::new(C16Pair { plan: OnceLock::new(), next: AtomicUsize::new(0), cache: Mutex::new(HashMap::new()) }),
         Box::new(C16Cloud { plan: OnceLock::new(), next: AtomicUsize::new(0), cache: Mutex::new(HashMap::new()) }),
+        Box::new(persist::C16Persist),
     ]
 }
